@@ -12,6 +12,8 @@ import PybtexModel.Lemmas.TeXSplit
 import PybtexModel.Lemmas.TeXSplitFirst
 import PybtexModel.Model.Width
 import PybtexModel.Lemmas.WidthPass
+import PybtexModel.Lemmas.TeXCaseFull
+import PybtexModel.Lemmas.TeXPrefixClosers
 
 namespace Pybtex.Props
 open Pybtex Spec TeXU
@@ -920,5 +922,157 @@ theorem C12_width_literal_nonvacuous :
     Spec.noSpecial "{\\'c}".toList = false ∧ bibtexWidthStd "{\\'c}{x\\y}".toList = some 3000 ∧
     Spec.widthOnePass widthOf "ab{\\'c{d}}".toList = 2056 ∧ Spec.widthOnePass widthOf "ab{\\'c{".toList = 1500 := by
   decide +kernel
+
+/-! ### case change with `str.lower` / `str.upper` as string operations (no domain restriction)
+
+`Model/TeXCaseFull.lean`: the model the driver answers with for EVERY string — the interpreter's full case
+mapping (ß ↦ SS, İ ↦ i̇ …) and the final-sigma rule of `str.lower` included. -/
+
+/-- [model wiring] run with character-by-character operations, the word-level model is the
+character-level model of the theorems above -/
+theorem C12_case_full_wiring (o : CharOps) (s : Str) (m : CaseMode) :
+    changeCaseW (charWordOps o) s m = changeCaseG o s m :=
+  changeCaseW_char o s m
+
+/-- on `caseDomain` (no letter whose case mapping changes the length, no capital sigma) the model with
+the interpreter's string methods IS the character-by-character model, for `change_case` and for the
+`change.case$` built-in with any mode string: every `_unicode` theorem above is a theorem about
+what the check compares with the code there -/
+theorem C12_case_full_on_domain (s : Str) (h : caseDomain s = true) :
+    (∀ m, changeCaseW pyWordOps s m = changeCaseG uniOps s m) ∧
+    (∀ mode, changeCaseBuiltinW pyWordOps s mode = changeCaseBuiltin uniOps s mode) := by
+  refine ⟨fun m => changeCaseW_domain s m h, fun mode => ?_⟩
+  simp only [changeCaseBuiltinW, changeCaseBuiltin]
+  cases modeLetter mode with
+  | error e => rfl
+  | ok m => simp only [changeCaseW_domain s m h]; rfl
+
+theorem C12_case_full_on_domain_nonvacuous :
+    caseDomain "Éa: {\\x É}ıſ".toList = true ∧
+      changeCaseW pyWordOps "Éa: {\\x É}ıſ".toList .u = some "ÉA: {\\x É}IS".toList := by
+  decide +kernel
+
+/-- length and letters for the unrestricted model, under both hypotheses: every special character
+closed, no length-changing letter and no capital sigma -/
+theorem C12_case_len_full_partial (s r : Str) (m : CaseMode) (hd : caseDomain s = true)
+    (hs : specialsClosed s = true) (h : changeCaseW pyWordOps s m = some r) :
+    r.length = s.length ∧ r.map caseFoldC = s.map caseFoldC := by
+  rw [changeCaseW_domain s m hd] at h
+  exact ⟨C12_case_len_unicode s r m hs h, C12_case_letters_unicode s r m hs h⟩
+
+theorem C12_case_len_full_partial_nonvacuous :
+    caseDomain "ab{\\'e x}É".toList = true ∧ specialsClosed "ab{\\'e x}É".toList = true ∧
+      changeCaseW pyWordOps "ab{\\'e x}É".toList .u = some "AB{\\'e X}É".toList := by
+  decide +kernel
+
+/-- without `caseDomain` length preservation fails although every special character is closed: ß ↦ SS,
+İ ↦ i + U+0307, ﬁ inside a special character ↦ FI (finding C12-case-length-changing-letter, now a
+machine-checked fact about the model the check drives) -/
+theorem C12_case_len_full_neg :
+    specialsClosed "ß".toList = true ∧ changeCaseW pyWordOps "ß".toList .u = some "SS".toList ∧
+      changeCaseW pyWordOps [Char.ofNat 0x130] .l = some [Char.ofNat 0x69, Char.ofNat 0x307] ∧
+      changeCaseW pyWordOps "{\\x ﬁ}".toList .u = some "{\\x FI}".toList := by
+  decide +kernel
+
+/-- EVERY string, every mode (no hypothesis): case change never shortens the string -/
+theorem C12_case_len_full_ge (s r : Str) (m : CaseMode) (h : changeCaseW pyWordOps s m = some r) :
+    s.length ≤ r.length :=
+  changeCaseW_length_ge pyWordOps pyWordOps_grows s r m h
+
+/-- and the capital sigma: at brace level 0 the code lower-cases character by character, so Σ never becomes a
+final sigma there; inside a special character whole words are lower-cased and the final-sigma rule of `str.lower`
+applies (ΑΣ ↦ ας, but ΑΣ'α ↦ ασ'α) -/
+theorem C12_case_len_full_ge_nonvacuous :
+    changeCaseW pyWordOps "ΑΣ".toList .l = some "ασ".toList ∧
+      changeCaseW pyWordOps "{\\x ΑΣ}".toList .l = some "{\\x ας}".toList ∧
+      changeCaseW pyWordOps "{\\x ΑΣ'α Σ}".toList .l = some "{\\x ασ'α σ}".toList ∧
+      changeCaseW pyWordOps "{\\x ΑΣ}".toList .t = some "{\\x ΑΣ}".toList := by
+  decide +kernel
+
+/-! ### the text prefix closes the groups it opened -/
+
+/-- EVERY string in which every special character is closed, every count: scanning the text prefix with
+BibTeX's rule (a `}` at depth 0 does not lower the depth: `depthSat`) ends at depth 0, i.e. every group the
+prefix opened is closed — also behind unmatched closing braces, where a net count of braces says something
+else; and the prefix is a prefix `q` of the string followed by EXACTLY `depthSat 0 q` closers -/
+theorem C12_prefix_closes_opened (s p : Str) (n : Int) (hs : specialsClosed s = true)
+    (hp : bibtexPrefix s n = some p) :
+    depthSat 0 p = 0 ∧ ∃ q, q <+: s ∧ p = q ++ List.replicate (depthSat 0 q) '}' := by
+  obtain ⟨q, k, hpq, h⟩ := C12_prefix_is_prefix s p n hp
+  rw [if_pos hs] at h
+  obtain ⟨hq, hk⟩ := h
+  subst hk
+  exact ⟨by rw [hpq]; exact depthSat_closed q, q, hq, hpq⟩
+
+/-- unmatched closing braces in front of the group the prefix ends in: the group is closed (a net count of
+braces would leave it open) -/
+theorem C12_prefix_closes_opened_nonvacuous :
+    specialsClosed "}cd {efg} h".toList = true ∧ bibtexPrefix "}cd {efg} h".toList 4 = some "}cd {e}".toList ∧
+      depthSat 0 "}cd {e}".toList = 0 ∧ depthSat 0 "}cd {e".toList = 1 ∧
+      bibtexPrefix "x}y{z{w".toList 7 = some "x}y{z{w}}".toList := by
+  decide
+
+/-! ### brace-free strings: case change against the interpreter's own string methods -/
+
+/-- EVERY string without braces (any letters, the length-changing ones and the capital sigma included):
+`change_case(s, 'u')` IS `s.upper()`; `change_case(s, 'l')` lower-cases character by character
+(`''.join(c.lower() for c in s)`), which is `s.lower()` whenever `s` has no capital sigma -/
+theorem C12_case_plain_str_methods (s : Str) (hs : ∀ c ∈ s, c ≠ '{' ∧ c ≠ '}') :
+    changeCaseW pyWordOps s .u = some (upperPy s) ∧
+    changeCaseW pyWordOps s .l = some (s.flatMap fun c => lowerPy [c]) ∧
+    ((∀ c ∈ s, isCapitalSigma c = false) → changeCaseW pyWordOps s .l = some (lowerPy s)) :=
+  ⟨changeCaseW_plain_u s hs, changeCaseW_plain_l s hs,
+   fun h => by rw [changeCaseW_plain_l s hs, flatMap_lowerPy_sigmaFree s h]⟩
+
+/-- Straße ΑΣ: upper-cased to STRASSE ΑΣ; lower-cased character by character the sigma is not final although
+`str.lower` of the whole string makes it final -/
+theorem C12_case_plain_str_methods_nonvacuous :
+    changeCaseW pyWordOps "Straße ΑΣ".toList .u = some "STRASSE ΑΣ".toList ∧
+      changeCaseW pyWordOps "Straße ΑΣ".toList .l = some "straße ασ".toList ∧
+      lowerPy "Straße ΑΣ".toList = "straße ας".toList := by
+  decide +kernel
+
+/-- `str.lower` and `str.upper` of the interpreter (as modelled from its regenerated tables) are idempotent
+on EVERY string — the two facts about them the idempotence clause rests on -/
+theorem C12_word_ops_idem (w : Str) : lowerPy (lowerPy w) = lowerPy w ∧ upperPy (upperPy w) = upperPy w :=
+  ⟨lowerPy_idem w, upperPy_idem w⟩
+
+theorem C12_word_ops_idem_nonvacuous :
+    upperPy "ǰﬁß".toList = [Char.ofNat 0x4A, Char.ofNat 0x30C, 'F', 'I', 'S', 'S'] ∧
+      lowerPy [Char.ofNat 0x130, Char.ofNat 0x3A3] = [Char.ofNat 0x69, Char.ofNat 0x307, Char.ofNat 0x3C2] := by
+  decide +kernel
+
+/-- EVERY string without braces, length-changing letters included (no `caseDomain`): upper-casing is idempotent -/
+theorem C12_case_upper_idem_plain (s r : Str) (hs : ∀ c ∈ s, c ≠ '{' ∧ c ≠ '}')
+    (h : changeCaseW pyWordOps s .u = some r) : changeCaseW pyWordOps r .u = some r :=
+  changeCaseW_plain_u_idem s r hs h
+
+theorem C12_case_upper_idem_plain_nonvacuous :
+    changeCaseW pyWordOps "aß: ŉ".toList .u = some ("ASS: ".toList ++ [Char.ofNat 0x2BC, 'N']) := by
+  decide +kernel
+
+/-- EVERY string, every mode, no `caseDomain` and no closedness hypothesis: the result is the input token by
+token, levels kept; a token inside braces (level ≥ 1) that is not a special character is unchanged; of a special
+character the words (pieces between blanks) stay in place, command words are unchanged and every other word is
+itself, its `str.lower` or its `str.upper` -/
+theorem C12_case_braces_full (s r : Str) (m : CaseMode) (toks : List Tok) (hs : scan s = some toks)
+    (h : changeCaseW pyWordOps s m = some r) :
+    ∃ toks' : List Tok, r = (toks'.map Prod.fst).flatten ∧
+      List.Forall₂ (fun t t' : Tok =>
+        t'.2 = t.2 ∧
+        (1 ≤ t.2 → ¬ (t.2 = 1 ∧ startsWithBackslash t.1 = true) → t'.1 = t.1) ∧
+        (t.2 = 1 → startsWithBackslash t.1 = true →
+          ∃ ws', t'.1 = joinWith [' '] ws' ∧
+            List.Forall₂ (fun w w' => (startsWithBackslash w = true → w' = w) ∧
+                (w' = w ∨ w' = lowerPy w ∨ w' = upperPy w))
+              (splitSpace t.1) ws')) toks toks' := by
+  simp only [changeCaseW, hs, Option.map_some, Option.some.injEq] at h
+  subst h
+  exact ⟨caseToksW pyWordOps m .start toks, changeCaseAuxW_eq pyWordOps m toks .start,
+    caseToksW_rel pyWordOps m toks .start⟩
+
+theorem C12_case_braces_full_nonvacuous :
+    changeCaseW pyWordOps "ß{\\'e ß \\aa}{c ß}{{\\o}}".toList .u =
+      some "SS{\\'e SS \\aa}{c ß}{{\\o}}".toList := by decide +kernel
 
 end Pybtex.Props
